@@ -38,3 +38,20 @@ func init() {
 			"\tfieldValue := reflect.New(field.IndirectFieldType)\n", "\tfieldValue := reflect.New(field.FieldType)\n"}}},
 	)
 }
+
+func init() {
+	addMutants(
+		Mutant{Name: "c15-count-order-restore-on-receiver", Property: "C15", Rule: "C15.count-restore", Edits: []Edit{{"finisher_api.go",
+			"\t\tdefer delete(tx.Statement.Clauses, \"SELECT\")", "\t\tdefer delete(db.Statement.Clauses, \"SELECT\")"}}},
+		Mutant{Name: "c16-firstorcreate-lookup-unlimited", Property: "C16", Rule: "C16.attrs-only-when-missing", Edits: []Edit{{"finisher_api.go",
+			"\tqueryTx := db.Session(&Session{}).Limit(1).Order(clause.OrderByColumn{", "\tqueryTx := db.Session(&Session{}).Order(clause.OrderByColumn{"}}},
+		Mutant{Name: "c19-tosql-session-newdb", Property: "C19", Rule: "C19.tosql", Edits: []Edit{{"gorm.go",
+			"db.Session(&Session{DryRun: true, SkipDefaultTransaction: true})", "db.Session(&Session{DryRun: true, SkipDefaultTransaction: true, NewDB: db.clone > 0})"}}},
+		Mutant{Name: "c20-automigrate-checks-only-without-fk-switch", Property: "C20", Rule: "C20.create-agree", Edits: []Edit{{"migrator/migrator.go",
+			"\t\t\t\tfor _, chk := range parseCheckConstraints {\n\t\t\t\t\tif !queryTx.Migrator().HasConstraint(value, chk.Name) {\n\t\t\t\t\t\tif err := execTx.Migrator().CreateConstraint(value, chk.Name); err != nil {\n\t\t\t\t\t\t\treturn err\n\t\t\t\t\t\t}\n\t\t\t\t\t}\n\t\t\t\t}\n",
+			"\t\t\t\tif !m.DB.DisableForeignKeyConstraintWhenMigrating {\n\t\t\t\t\tfor _, chk := range parseCheckConstraints {\n\t\t\t\t\t\tif !queryTx.Migrator().HasConstraint(value, chk.Name) {\n\t\t\t\t\t\t\tif err := execTx.Migrator().CreateConstraint(value, chk.Name); err != nil {\n\t\t\t\t\t\t\t\treturn err\n\t\t\t\t\t\t\t}\n\t\t\t\t\t\t}\n\t\t\t\t\t}\n\t\t\t\t}\n"}}},
+		Mutant{Name: "n54-getinstance-statement-from-helper", Property: "*", Rule: "NEUTRAL", Edits: []Edit{
+			{"gorm.go", "\t\t\ttx.Statement = &Statement{\n\t\t\t\tDB:        tx,\n\t\t\t\tConnPool:  db.Statement.ConnPool,\n\t\t\t\tContext:   db.Statement.Context,\n\t\t\t\tClauses:   map[string]clause.Clause{},\n\t\t\t\tVars:      make([]interface{}, 0, 8),\n\t\t\t\tSkipHooks: db.Statement.SkipHooks,\n\t\t\t}", "\t\t\ttx.Statement = freshStatement(tx, db.Statement)"},
+			{"gorm.go", "func (db *DB) getInstance() *DB {", "func freshStatement(tx *DB, parent *Statement) *Statement {\n\treturn &Statement{\n\t\tDB:        tx,\n\t\tConnPool:  parent.ConnPool,\n\t\tContext:   parent.Context,\n\t\tClauses:   map[string]clause.Clause{},\n\t\tVars:      make([]interface{}, 0, 8),\n\t\tSkipHooks: parent.SkipHooks,\n\t}\n}\n\nfunc (db *DB) getInstance() *DB {"}}},
+	)
+}
